@@ -3,6 +3,15 @@
 //   poll_write: Ready(Ok(n)) accepts exactly the first n bytes offered (n <= len); Pending accepts nothing and
 //               registers the task's waker; poll_flush/poll_read likewise register on Pending.
 pub uninterp spec fn io_registered(wid: int) -> bool;
+// `b` is `a` with bytes appended (kept opaque in the big functions: the sequence axioms behind `take`/`=~=` are what made
+// read_available cost 95 M rlimit units; with the predicate and its three lemmas it is a fraction of that)
+#[verifier::opaque]
+pub open spec fn buf_extends(a: Seq<u8>, b: Seq<u8>) -> bool { a.len() <= b.len() && b.take(a.len() as int) =~= a }
+pub proof fn lemma_buf_extends_refl(a: Seq<u8>) ensures buf_extends(a, a) { reveal(buf_extends); assert(a.take(a.len() as int) =~= a); }
+pub proof fn lemma_buf_extends_trans(a: Seq<u8>, b: Seq<u8>, c: Seq<u8>) requires buf_extends(a, b), buf_extends(b, c) ensures buf_extends(a, c)
+{ reveal(buf_extends); assert(c.take(a.len() as int) =~= c.take(b.len() as int).take(a.len() as int)); }
+pub proof fn lemma_buf_extends_same_len(a: Seq<u8>, b: Seq<u8>) requires buf_extends(a, b), a.len() == b.len() ensures a == b
+{ reveal(buf_extends); assert(b.take(b.len() as int) =~= b); }
 pub trait SocketIo {
     spec fn accepted(&self) -> Seq<u8>;
     fn poll_write(&mut self, cx: &mut Context<'_>, buf: &[u8]) -> (r: Poll<io::Result<usize>>)
@@ -24,7 +33,7 @@ pub trait SocketIo {
             final(cx).spec_waker() == old(cx).spec_waker(),
             final(self).accepted() == old(self).accepted(),
             match r {
-                Poll::Ready(Ok(n)) => final(buf)@.len() == old(buf)@.len() + n && final(buf)@.take(old(buf)@.len() as int) =~= old(buf)@
+                Poll::Ready(Ok(n)) => final(buf)@.len() == old(buf)@.len() + n && buf_extends(old(buf)@, final(buf)@)
                     && old(buf)@.len() + n <= old(buf).spec_capacity() && final(buf).spec_capacity() == old(buf).spec_capacity(),
                 Poll::Ready(Err(e)) => final(buf)@ == old(buf)@ && e.spec_kind() != io::ErrorKind::WouldBlock /* AsyncRead contract: not-ready is Pending, never a WouldBlock error */,
                 Poll::Pending => final(buf)@ == old(buf)@ && io_registered(old(cx).spec_waker().wid()),
